@@ -58,12 +58,13 @@ class Probes:
         self.log = Log()
 
     # -- code probes: p('x'|'a'|'e', id, x, time[, event])
-    def p(self, kind, ident, x, time, event=None):
+    def p(self, kind, ident, x, time, event=None, na=-1):
+        # na: how many states of the chart active() reports as active at this very point
         if kind == 'a':
             e, par = ev_id(event)
-            self.log.append(loge('acode', ident, e, par, 0, x, time - self.base))
+            self.log.append(loge('acode', ident, e, par, na, x, time - self.base))
         else:
-            self.log.append(loge('xcode' if kind == 'x' else 'ecode', ident, 0, 0, 0, x, time - self.base))
+            self.log.append(loge('xcode' if kind == 'x' else 'ecode', ident, 0, 0, na, x, time - self.base))
 
     # -- guard oracle / guard tracer: g(tid, event, time[, value computed by sismic])
     def g(self, tid, event, time, val=None):
@@ -73,7 +74,7 @@ class Probes:
         return v
 
     # -- contract oracle: c(kind, owner, idx, time[, __old__])
-    def c(self, ck, owner, idx, time, old=0, nbox=0, aft=None, idl=None):
+    def c(self, ck, owner, idx, time, old=0, nbox=0, aft=None, idl=None, act=None):
         if aft is not None:      # post-conditions and invariants: what after(1) / idle(1) answer here
             self.log.append(loge('ctime', owner, 1 if aft else 0, 1 if idl else 0, 0, 0, time - self.base))
         self.cnt += 1
@@ -108,14 +109,14 @@ class Probes:
         code = sys._getframe(depth).f_code
         return any(i.opname == 'POP_TOP' for i in dis.get_instructions(code))
 
-    def dg(self, ta, tb, x, time, event=None):
+    def dg(self, ta, tb, x, time, event=None, na=-1):
         if self._as_statement():
-            return self.p('a', tb, x, time, event)
+            return self.p('a', tb, x, time, event, na)
         return self.g(ta, event, time)
 
-    def dc(self, owner, idx, s, x, time):
+    def dc(self, owner, idx, s, x, time, na=-1):
         if self._as_statement():
-            return self.p('e', s, x, time)
+            return self.p('e', s, x, time, None, na)
         return self.c(1, owner, idx, time)
 
 
